@@ -44,6 +44,21 @@ def make_cases(seed, n):
                 b = P + 5
             cases.append({"line": "!div %s %s" % (hx(a), hx(b)), "key": "div", "tag": ("nc" if b >= P or a >= P else None),
                           "expect": (lambda v, a=a, b=b: (len(v) == 1 and (v[0] * b - a) % P == 0, "div*b == a"))})
+            # the reference-parameter forms with the output aliasing an operand
+            al = rng.choice(["div_oa", "div_ob", "div_oab", "inv_oa", "exp_oa"])
+            if al in ("div_oa", "div_ob"):
+                cases.append({"line": "!%s %s %s" % (al, hx(a), hx(b)), "key": al, "tag": "alias",
+                              "expect": (lambda v, a=a, b=b: (len(v) == 1 and (v[0] * b - a) % P == 0, "div*b == a (aliased output)"))})
+            elif al == "div_oab":
+                cases.append({"line": "!div_oab %s" % hx(b), "key": al, "tag": "alias",
+                              "expect": (lambda v: (len(v) == 1 and v[0] % P == 1, "x/x == 1 (all three aliased)"))})
+            elif al == "inv_oa":
+                cases.append({"line": "!inv_oa %s" % hx(b), "key": al, "tag": "alias",
+                              "expect": (lambda v, b=b: (len(v) == 1 and (v[0] * b) % P == 1, "inv*b == 1 (aliased output)"))})
+            else:
+                e = rng.choice([0, 1, 2, 5, P - 1, gen_word(rng)])
+                cases.append({"line": "exp_oa %s %s" % (hx(a), hx(e)), "key": al, "tag": "alias",
+                              "expect": (lambda v, a=a, e=e: (len(v) == 1 and v[0] % P == pow(a % P, e, P), "b^e (aliased output)"))})
             continue
         b = gen_word(rng)
         e = rng.choice([0, 1, 2, 3, P - 2, P - 1, P, (1 << 64) - 1, 1 << 63, (1 << 32), gen_word(rng), rng.below(1 << 16)])
